@@ -293,6 +293,13 @@ func c05Check(tier string) int {
 		pool.ChownNobody(sbroot)
 		defer os.RemoveAll(sbroot)
 		out := pool.RunWorker([]string{"c05", tier, strconv.Itoa(k * per), strconv.Itoa((k + 1) * per)}, nil, budget(tier), true, "VERIF_SANDBOX="+sbroot)
+		if out.TimedOut && out.ExitCode != 3 {
+			// the wall-clock budget ran out (a loaded machine, a slower tree): not a verdict about the property
+			run.Add("workers_out_of_budget", 1)
+			run.Set("exhaustive", false)
+			run.Set("cap", "a worker exceeded the wall-clock budget of this tier; its share of the space was not completed")
+			return
+		}
 		if out.Crashed() {
 			run.Report(ev.Violation{Key: fmt.Sprintf("worker-crash mask=%d", out.Progress[0]), Class: "process-crash-or-hang",
 				What: fmt.Sprintf("worker died or hung (exit=%d signal=%s timeout=%v) on tree mask %d: %s", out.ExitCode, out.Signal, out.TimedOut, out.Progress[0], firstLines(string(out.Stderr), 6)),
